@@ -11,7 +11,8 @@ Open Scope Q_scope.
 Inductive xop :=
 | XOp (o : op)
 | XSymPrec (x : sym) (p : nat)                 (* Exchange.set_symbol_precision(x, p) *)
-| XPairInfo (pr : pair) (bq : nat * nat).      (* Exchange.set_pair_info(pr, PairInfo(b, q)) *)
+| XPairInfo (pr : pair) (bq : nat * nat)       (* Exchange.set_pair_info(pr, PairInfo(b, q)) *)
+| XTick (w : Z).                               (* the dispatcher's clock moves to [w] without a bar: a scheduled job runs *)
 
 (* lookups return the first match, so a new head entry is the dict assignment *)
 Definition reconf (c : cfg) (x : xop) : cfg :=
@@ -21,11 +22,13 @@ Definition reconf (c : cfg) (x : xop) : cfg :=
     mkCfg ((y, p) :: c_sym_prec c) (c_pair_info c) (c_default_pair c) (c_fee c) (c_liq c) (c_lend c)
   | XPairInfo pr bq =>
     mkCfg (c_sym_prec c) ((pr, bq) :: c_pair_info c) (c_default_pair c) (c_fee c) (c_liq c) (c_lend c)
+  | XTick _ => c
   end.
 
 Definition xstep (cs : cfg * st) (x : xop) : (cfg * st) * reply :=
   match x with
   | XOp o => let '(s', r) := step (fst cs) (snd cs) o in ((fst cs, s'), r)
+  | XTick w => ((fst cs, set_close_now (snd cs) (s_close (snd cs)) (Some w)), ROk)
   | _ => ((reconf (fst cs) x, snd cs), ROk)
   end.
 
